@@ -2,6 +2,7 @@ package eng
 
 import (
 	"fmt"
+	"strings"
 
 	"github.com/issue9/mux/v9"
 	"github.com/issue9/mux/v9/types"
@@ -23,14 +24,28 @@ type addOnly struct {
 }
 
 func newAddOnly(order []string, ics gen.ICSet) *addOnly {
+	rejR := ref.NewR(uint64(len(order))*7919 + ref.Hash64(strings.Join(order, "|")))
 	env := mon.NewEnv()
 	env.RecordMW = false
 	a := &addOnly{env: env, r: env.NewRouter("r", icOptions(ics)...), hnd: map[string]*mon.Hnd{}}
-	for _, p := range order {
+	for i, p := range order {
 		h := env.NewHnd(mon.KRoute, p)
 		if ok, _ := tryHandle(a.r, p, h, []string{"GET"}); ok {
 			a.accepted = append(a.accepted, p)
 			a.hnd[p] = h
+		}
+		if i%3 == 2 {
+			// a registration that is refused for its methods (reserved / unknown / duplicate) in between: the router is
+			// still one "whose routes were only ever added", and the refused pattern - it shares a prefix with a real
+			// route and would split its node - must leave no trace in the resolution
+			q := gen.Hostile.Derive(rejR, p)
+			bad := ref.Pick(rejR, [][]string{{"OPTIONS"}, {"GET", "BOGUS"}, {"HEAD"}, {"PUT", "PUT"}})
+			if ok, _ := tryHandle(a.r, q, env.NewHnd(mon.KRoute, q), bad); ok {
+				if len(bad) == 2 && bad[0] == bad[1] { // a repeated method may be accepted (C17): then it is a real route
+					a.accepted = append(a.accepted, q)
+					a.hnd[q] = nil
+				}
+			}
 		}
 	}
 	a.rs = &ref.Resolver{Pats: parseAll(a.accepted, ics.Funcs), IC: ics.Funcs}
@@ -76,7 +91,7 @@ func checkResolution(c *Ctx, a *addOnly, path string, ctxInfo func() any) (nontr
 		}
 		if !ok {
 			fail("route/params are not among the admissible outcomes of the documented procedure")
-		} else if h := a.hnd[o.NodePattern]; o.H == nil || o.H.Base != h {
+		} else if h, known := a.hnd[o.NodePattern]; o.H == nil || (known && h != nil && o.H.Base != h) {
 			fail("handler is not the one registered for the winning pattern")
 		}
 	}
